@@ -658,12 +658,15 @@ def make_dataset(rng, T=None, naming=None, nfam=None, P=None, maxleaves=8, int_i
             continue
         fam_no += 1
         topid = str(fam_no + id_offset) if rng.random() < 0.7 else 'HOG:%07d' % fam_no
-        num_ = [t for _, _, t in D.families if t is not None and t.isdigit()]
+        num_ = [t for _, _, t in D.families if t is not None and t.isascii() and t.isdigit()]
         if num_ and rng.random() < P.get('zero_pad_top', 0.0):
             # family ids that are equal as integers but are different ids: "7" and "07" (ids are strings)
             cand_ = '0' + rng.choice(num_)
             if cand_ not in [t for _, _, t in D.families]:
                 topid = cand_
+        if rng.random() < P.get('odd_digit_ids', 0.03):
+            # ids made of "digits" that are not decimal digits (superscripts: str.isdigit() is true, int() refuses; r14-C12b)
+            topid = str(fam_no + id_offset) + rng.choice(['\u00b2', '\u00b3', '\u00b9'])
         if fam_no == idless_at:
             topid = None         # one top-level group without id (the schema allows it; it is listed under the key None)
         l = ('grp', True, topid) + tuple(l[3:])
